@@ -227,6 +227,10 @@ def _evaluate(case, shape, kinds, ref, oths):
     rds = statgen.make_dataset(shape, kinds, ref['v'], ref['e'], 'ref', lay, vdt)
     ods = [statgen.make_dataset(shape, kinds, o['v'], o['e'], f'o{i}', lay, vdt)
            for i, o in enumerate(oths)]
+    return _evaluate_ds(case, rds, ods)
+
+
+def _evaluate_ds(case, rds, ods):
     test = TestChi2(rds, *ods, name='c07', alpha=case['alpha'],
                     ignore_empty=case['ignore_empty'])
     res = test.evaluate()
@@ -402,6 +406,39 @@ def _run_case(case):
         out.failures.append(Failure('permutation', f'C07/permutation/verdict/{mode}',
                                     f'verdict {got["verdict"]} became {pgot_["verdict"]} after '
                                     f'permuting the bins'))
+    # ---- history: the SAME dataset objects, compared once with the original numbers, then given
+    # the permuted numbers (arrays edited in place or attributes re-assigned, as the repository's
+    # own tests do with .error) and compared again: the new comparison must see the datasets as
+    # they are now, i.e. give what fresh datasets holding these numbers give (pgot_)
+    lay, vdt = case.get('layout', 'C'), case.get('vdtype')
+    hds = [statgen.make_dataset(shape, kinds, d['v'], d['e'], f'h{i}', lay, vdt)
+           for i, d in enumerate([case['ref']] + list(case['others']))]
+    new = [statgen.make_dataset(shape, kinds, d['v'], d['e'], f'n{i}', lay, vdt)
+           for i, d in enumerate([pref_] + poth)]
+    try:
+        _evaluate_ds(case, hds[0], hds[1:])
+        for k, (dst, src) in enumerate(zip(hds, new)):
+            for attr in ('value', 'error'):
+                cur = getattr(dst, attr)
+                if isinstance(cur, np.ndarray) and cur.ndim and (k + len(attr)) % 2:
+                    cur[...] = getattr(src, attr)
+                else:
+                    setattr(dst, attr, getattr(src, attr))
+        hgot = _evaluate_ds(case, hds[0], hds[1:])
+    except Exception as exc:
+        out.failures.append(exc_failure('evaluate_raises', exc, f'{kind}/{mode}/history'))
+        return out
+    out.labels.append('re-evaluated-after-change-of-the-datasets')
+    same = all(len(hgot[key]) == len(pgot_[key]) and all(
+        (a == b) or (isinstance(a, float) and math.isnan(a) and math.isnan(b))
+        for a, b in zip(hgot[key], pgot_[key])) for key in ('chi2', 'ndf', 'pvalue'))
+    if not same or hgot['verdict'] != pgot_['verdict']:
+        out.failures.append(Failure(
+            'history', f'C07/history/datasets-changed/{kind}/{mode}',
+            f'datasets compared once, then given other numbers (in place / by assignment): the new '
+            f'comparison reports chi2 {hgot["chi2"]} ndf {hgot["ndf"]} p {hgot["pvalue"]} verdict '
+            f'{hgot["verdict"]}; fresh datasets with the same numbers give chi2 {pgot_["chi2"]} ndf '
+            f'{pgot_["ndf"]} p {pgot_["pvalue"]} verdict {pgot_["verdict"]}'))
     out.info = {'reference': [(s, n, l) for s, n, l in refs], 'got_chi2': got['chi2'],
                 'got_pvalue': got['pvalue'], 'verdict': got['verdict']}
     return out
